@@ -75,12 +75,22 @@ def ag(name, entry, funcs, instances, **kw):
     return d
 
 
-def inst_all(vss, quick_vs=(33,)):
+SLOW = (10, 11, 12, 13, 18)      # structures with a free slot (put can succeed): 6-8 min each even alone, 2-7 GB
+
+
+def inst_all(vss, quick_vs=(33,), with_slow=True):
     out = []
     for n, img in enumerate(images(2)):
         for vs in vss:
             d = dict(HM=2, IMGID=n, _IMG_INIT=cinit(img), unwind=5, VS=vs)
-            if vs not in quick_vs:
+            if n in SLOW:
+                if not with_slow:
+                    continue
+                # one of them rides in the quick tier so that the success path of put is exercised on every change
+                d.update(solver='minisat', timeout=3000)
+                if not (n == 11 and vs == 1):
+                    d['tier'] = 'thorough'
+            elif vs not in quick_vs:
                 d['tier'] = 'thorough'
             out.append(d)
     return out
@@ -94,5 +104,5 @@ GROUPS = [
     ag('get_remove', 'h_get_remove', ['qhasharr_get_by_obj', 'get_data', 'get_idx', 'qhasharr_remove_by_obj', 'qhasharr_remove_by_idx', 'qhasharr_size'],
        [dict(HM=2, IMGID=n, _IMG_INIT=cinit(images(2)[n]), unwind=5, tier='thorough', timeout=2400) for n in (0, 24)]),
     ag('init_attach', 'h_init_attach', ['qhasharr', 'qhasharr_calculate_memsize', 'qhasharr_free'], [dict(HM=2, unwind=6), dict(HM=4, unwind=6)], props=['C07']),
-    ag('relocate', 'h_relocate', ['qhasharr_put_by_obj', 'qhasharr'], inst_all((33,)), props=['C07'], unwindset='qv_memcpy.0:17,qhashmd5.0:17'),
+    ag('relocate', 'h_relocate', ['qhasharr_put_by_obj', 'qhasharr'], inst_all((33,), with_slow=False), props=['C07'], unwindset='qv_memcpy.0:17,qhashmd5.0:17'),
 ]
